@@ -46,7 +46,8 @@ NOT_APPLICABLE = {}
 PROPS["C16"] = dict(
     harness="c16_sparselu", flavour="asan",
     quick=dict(workers=8, cases=6000, min_nontrivial=200),
-    thorough=dict(workers=16, cases=250000, min_nontrivial=2000, budget_s=3000),
+    thorough=dict(workers=16, cases=250000, min_nontrivial=2000, budget_s=3000,
+                  fuzz=dict(target="f16_sparselu", runs=200000, jobs=8, max_len=1024)),
     rule="Square sparse matrices admitting LU without pivoting by construction: patterns banded/arrow/random density "
          "0.02-0.5/block/9-point x values strictly row-dominant, column-dominant, or the product of a sparse unit-lower L "
          "and an upper U with |u_ii| in [0.1,10] (not dominant, non-symmetric); rows scaled by 10^U[-k,k], k in {0,3,6,9,12}, "
